@@ -821,7 +821,11 @@ def inline_private_calls(repo, cls, fn, depth=2, only=None, _seen=(), helper_tra
                         while id(cur) in parents:
                             cur = parents[id(cur)]
                             anc.append(cur)
-                        if any(isinstance(a_, (ast.BoolOp, ast.IfExp, ast.Lambda, ast.ListComp, ast.SetComp, ast.DictComp, ast.GeneratorExp)) for a_ in anc):
+                        def in_first_iter(comp):
+                            # the iterable of a comprehension's first `for` is evaluated once, before anything else of it
+                            return any(x is cand for x in ast.walk(comp.generators[0].iter))
+                        if any(isinstance(a_, (ast.BoolOp, ast.IfExp, ast.Lambda)) for a_ in anc) or \
+                                any(isinstance(a_, (ast.ListComp, ast.SetComp, ast.DictComp, ast.GeneratorExp)) and not in_first_iter(a_) for a_ in anc):
                             continue
                         pos = (cand.lineno, cand.col_offset)
                         earlier = [x for x in ast.walk(root) if isinstance(x, ast.Call) and x is not cand and x not in anc
